@@ -208,6 +208,34 @@ def cut_bytes(k=1, budget=900):
     return f
 
 
+def cut_tail1(events, head=0, only_app=False):
+    """every record ends in a segment of its own that carries just its last byte (a burst of k*MSS+1 bytes, a window that opened by one byte), and,
+    with head > 0, starts with a segment of `head` bytes: the 1..4-byte segments real stacks do produce at record edges"""
+    sizes = {}
+    bi = -1
+    last = None
+    for e in events:
+        if e.dir != last:
+            bi += 1
+            last = e.dir
+            sizes[bi] = []
+        n = len(e.wire)
+        if only_app and e.kind != "app":            # handshake delivered in whole records: the connection is established before the short segments begin
+            sizes[bi].append(n)
+            continue
+        parts = [min(head, n - 1)] if head and n > 1 else []
+        body = n - sum(parts) - 1
+        if body > 0:
+            parts.append(body)
+        parts.append(1)
+        sizes[bi] += [x for x in parts if x > 0]
+
+    def f(d, n, b):
+        assert sum(sizes[b]) == n
+        return list(sizes[b])
+    return f
+
+
 def cut_at(points_by_burst):
     """explicit cut points per burst index: {bi: [offsets]}"""
     def f(d, n, bi):
@@ -255,10 +283,12 @@ def make_cutter(rng, kind, events=None):
         return cut_random(rng, rng.choice([10, 100, 1460, 4000]))
     if kind == "records":
         return cut_records(events, rng.choice([1, 1, 2]))
+    if kind == "tail1":
+        return cut_tail1(events, rng.choice([0, 0, 1, 3, 4, 5]), only_app=rng.random() < 0.6)
     raise ValueError(kind)
 
 
-CUT_KINDS = ["whole", "mss", "byte1", "byte2", "random", "records"]
+CUT_KINDS = ["whole", "mss", "byte1", "byte2", "random", "records", "tail1"]
 
 
 # ------------------------------------------------------------------ delivery perturbations (same byte streams)
